@@ -11,7 +11,7 @@ const FLOAT_TYPES: [&str; 2] = ["f32", "f64"];
 #[inline]
 pub(crate) fn meta_2_expr(meta: &Meta) -> syn::Result<Expr> {
     match &meta {
-        Meta::NameValue(name_value) => Ok(name_value.value.clone()),
+        Meta::NameValue(name_value) => Ok(super::r#type::ungroup_expr(&name_value.value).clone()),
         Meta::List(list) => list.parse_args::<Expr>(),
         Meta::Path(path) => Err(syn::Error::new(
             path.span(),
